@@ -283,7 +283,64 @@ class PValues(Contract):
         return {1: LoopSpec(inv1), 2: LoopSpec(inv2), 3: LoopSpec(inv3), 4: LoopSpec(inv4), 5: LoopSpec(inv5)}
 
 
+from vf.contract import FragmentContract
+
+
+class NearestTargets(FragmentContract):
+    """C13 / C14 (n_nearest selection of _tomtom; the three statements of the else branch): row k of
+    results[i] is the scratch row of target t_k = results[i, k, 5] (all five fields), the t_k are distinct
+    valid targets, their p-values are non-decreasing in k, and every target that is not selected has a
+    p-value >= that of every selected one - i.e. the n_nearest smallest, in order; rows of other queries
+    are untouched."""
+    qualname = 'tangermeme.tools.tomtom._tomtom'
+    props = ('C13', 'C14')
+    stmt_block = ('idxs = numpy.argsort(_results[pid, :n_in_targets, 0])[:n_nearest]', 3)
+    key = 'tangermeme.tools.tomtom._tomtom#nearest'
+
+    def scopes(self, cfg):
+        return [{'default': 3, 'n_nearest': 2}, {'default': 2, 'n_nearest': 1}, {'default': 4, 'n_nearest': 4, 'T': 4}]
+
+    def make_env(self, cfg, A):
+        n, T, Q = A.dim('n', 1), A.dim('T', 1), A.dim('Q', 1)
+        nn = A.int('n_nearest', lo=1)
+        nin = A.int('n_in_targets', lo=1)
+        A.assume(nin <= T, nn <= nin)
+        _results = A.tensor('_results', 3, 'real', lib='np', shape=[n, T, 5])
+        results = A.tensor('results', 3, 'real', lib='np', shape=[Q, nn, 6])
+        pid, i = A.int('pid', lo=0), A.int('i', lo=0)
+        A.assume(pid < n, i < Q)
+        return dict(_results=_results, results=results, pid=pid, i=i, n_nearest=nn, n_in_targets=nin)
+
+    def post_env(self, b, a, outcome, cfg):
+        out = [('no-exception', not outcome.startswith('raise'))]
+        if not out[0][1]:
+            return out
+        S, R0, R = b._results, b.results, a.results
+        nn, nin, pid, i = b.n_nearest, b.n_in_targets, b.pid, b.i
+        tk = lambda k: R.elem(i, k, 5)
+        is_t = lambda k, t: O.eq(tk(k), t)
+        out.append(('selected-targets-valid', O.forall([nn], lambda k: O.exists_box([nin], lambda t: is_t(k, t)))))
+        out.append(('selected-targets-distinct', O.forall([nn, nn], lambda k, k2: Implies(O.ne(k, k2), O.ne(tk(k), tk(k2))))))
+        out.append(('fields-are-those-of-the-selected-target', O.forall([nn, nin, 5], lambda k, t, c: Implies(is_t(k, t), O.eq(R.elem(i, k, c), S.elem(pid, t, c))))))
+        out.append(('p-values-non-decreasing', O.forall([nn, nn], lambda k, k2: Implies(k <= k2, R.elem(i, k, 0) <= R.elem(i, k2, 0)))))
+        out.append(('unselected-targets-are-not-nearer', O.forall([nin, nn], lambda t, k: Or(O.exists_box([nn], lambda k2: is_t(k2, t)), S.elem(pid, t, 0) >= R.elem(i, k, 0)))))
+        out.append(('other-queries-untouched', O.forall([R.shape[0], nn, 6], lambda q, k, c: Implies(O.ne(q, i), O.eq(R.elem(q, k, c), R0.elem(q, k, c))))))
+        return out
+
+    def replay_fragment(self, cfg, st):
+        import numpy
+        from vf.contract import replay_fragment_generic
+        if st.get('_results') is None or st.get('results') is None:
+            return []
+        S = numpy.array(st['_results'], dtype='float64')
+        S = numpy.round(S) % 5          # few distinct values: ties are exercised
+        R = numpy.full(numpy.array(st['results']).shape, -7.0)
+        env = dict(_results=S, results=R, pid=int(st['pid']), i=int(st['i']), n_nearest=int(st['n_nearest']), n_in_targets=int(st['n_in_targets']))
+        return replay_fragment_generic(self._world, self, cfg, env)
+
+
 def register(world):
     world.register(MergeRcResults())
     world.register(PairwiseMax())
     world.register(PValues())
+    world.register_fragment(NearestTargets())
